@@ -662,6 +662,10 @@ namespace link_layer {
                 return true;
             }
 
+            void end_of_advertisement()
+            {
+            }
+
             void end_of_advertising_events()
             {
             }
@@ -714,6 +718,7 @@ namespace link_layer {
             impl()
                 : started_( false )
                 , enabled_( false )
+                , scheduled_( false )
                 , count_( 0 )
             {}
 
@@ -724,7 +729,8 @@ namespace link_layer {
                 count_   = 0;
                 enabled_ = true;
 
-                if ( start && started_ )
+                // if there is still an advertisement scheduled, advertising continues with the next adv_timeout()
+                if ( start && started_ && !scheduled_ )
                     static_cast< Advertiser& >( *this ).handle_start_advertising();
             }
 
@@ -741,7 +747,8 @@ namespace link_layer {
                 count_ = count;
                 enabled_ = true;
 
-                if ( start && started_ )
+                // if there is still an advertisement scheduled, advertising continues with the next adv_timeout()
+                if ( start && started_ && !scheduled_ )
                     static_cast< Advertiser& >( *this ).handle_start_advertising();
             }
 
@@ -766,7 +773,8 @@ namespace link_layer {
                         enabled_ = false;
                 }
 
-                started_ = true;
+                started_   = true;
+                scheduled_ = result;
                 return result;
             }
 
@@ -781,7 +789,16 @@ namespace link_layer {
                         enabled_ = false;
                 }
 
+                scheduled_ = result;
                 return result;
+            }
+
+            /*
+             * the radio reported the end of the last scheduled advertisement
+             */
+            void end_of_advertisement()
+            {
+                scheduled_ = false;
             }
 
             void end_of_advertising_events()
@@ -792,6 +809,7 @@ namespace link_layer {
         private:
             volatile bool       started_;
             volatile bool       enabled_;
+            volatile bool       scheduled_;
             volatile unsigned   count_;
         };
         /** @endcond */
@@ -1176,6 +1194,8 @@ namespace link_layer {
              */
             bool handle_adv_receive( read_buffer receive, device_address& remote_address )
             {
+                this->end_of_advertisement();
+
                 if ( this->is_valid_connect_request( receive ) )
                 {
                     using layout_t = typename pdu_layout_by_radio< typename LinkLayer::radio_t >::pdu_layout;
@@ -1196,6 +1216,8 @@ namespace link_layer {
 
             void handle_adv_timeout()
             {
+                this->end_of_advertisement();
+
                 const read_buffer advertising_data = this->base_link_layer().l2cap_adverting_data_or_scan_response_data_changed()
                     ? this->fill_advertising_data()
                     : this->get_advertising_data();
@@ -1358,6 +1380,8 @@ namespace link_layer {
 
             bool handle_adv_receive( read_buffer receive, device_address& remote_address )
             {
+                this->end_of_advertisement();
+
                 if ( this->is_valid_connect_request( receive, selected_ ) )
                 {
                     using layout_t = typename pdu_layout_by_radio< typename LinkLayer::radio_t >::pdu_layout;
@@ -1378,6 +1402,8 @@ namespace link_layer {
 
             void handle_adv_timeout()
             {
+                this->end_of_advertisement();
+
                 const bool fill_data = selected_ != proposal_
                     || this->base_link_layer().l2cap_adverting_data_or_scan_response_data_changed();
 
